@@ -171,6 +171,15 @@ def extract(repo):
     ot = func(tg, "openTextgrid")
     encs = [const(k.value) for c in call_args(ot, "open") for k in c.keywords if k.arg == "encoding"]
     facts.append(("open_textgrid_encodings", "list string", clist([cstr(e) for e in encs])))
+    # the scripts the textgrid-level models follow statement by statement (docstrings left out)
+    sc = parse(repo, "praatio/praatio_scripts.py")
+
+    def stmts(f):
+        body = f.body[1:] if f.body and isinstance(f.body[0], ast.Expr) and isinstance(f.body[0].value, ast.Constant) else f.body
+        return clist([cstr(ast.unparse(b).replace("'", "`")) for b in body])
+    for fn, nm in (("_shiftTimes", "shift_times_stmts"), ("audioSplice", "audio_splice_stmts"),
+                   ("tgBoundariesToZeroCrossings", "tg_zero_crossings_stmts")):
+        facts.append((nm, "list string", stmts(func(sc, fn))))
     return facts
 
 
